@@ -1,4 +1,4 @@
-import HeimdallModel.Lemmas.Trie
+import HeimdallModel.Lemmas.Table
 /-!
 # C02 — the most specific matching path expression selects the rule
 
@@ -79,5 +79,117 @@ theorem c02_no_backtracking_blocks (t : Table V) (hnd : NodupPats t) (path : Lis
   | true =>
     have := (hall n hn caps hm hlt).2
     rw [hbt] at this; cases this
+
+
+/-- **Independent of the loading order.** Two tables that hold the same node for every expression — however they
+were built up, in whatever order rules and rule sets were loaded — answer every lookup alike. -/
+theorem c02_order_independent (t₁ t₂ : Table V) (h : ∀ p, getNode t₁ p = getNode t₂ p) (path : List Tok) :
+    find m t₁ path [] = find m t₂ path [] :=
+  find_congr m t₁ t₂ h path []
+
+/-- routes with different expressions can be added in either order: the resulting tables hold the same nodes
+(and the second order succeeds whenever the first one does) -/
+theorem c02_add_comm (canAdd : List V → V → Bool) (t t₁ t₁₂ : Table V) (p₁ p₂ : List PTok) (k₁ k₂ : List String)
+    (v₁ v₂ : V) (b₁ b₂ : Bool) (hne : p₁ ≠ p₂)
+    (h1 : addPat canAdd t p₁ k₁ v₁ b₁ = .ok t₁) (h12 : addPat canAdd t₁ p₂ k₂ v₂ b₂ = .ok t₁₂) :
+    ∃ t₂ t₂₁, addPat canAdd t p₂ k₂ v₂ b₂ = .ok t₂ ∧ addPat canAdd t₂ p₁ k₁ v₁ b₁ = .ok t₂₁ ∧
+      ∀ q, getNode t₂₁ q = getNode t₁₂ q := by
+  have hg1 := addPat_getNode canAdd t t₁ p₁ k₁ v₁ b₁ h1
+  have hg12 := addPat_getNode canAdd t₁ t₁₂ p₂ k₂ v₂ b₂ h12
+  have hne' : p₂ ≠ p₁ := fun e => hne e.symm
+  -- adding p₂ first succeeds: its node is the same in `t` and `t₁`
+  have ok2 : ∃ t₂, addPat canAdd t p₂ k₂ v₂ b₂ = .ok t₂ := by
+    rw [addPat_ok_iff]
+    have := (addPat_ok_iff canAdd t₁ p₂ k₂ v₂ b₂).mp ⟨t₁₂, h12⟩
+    rw [hg1 p₂] at this
+    simpa [hne'] using this
+  obtain ⟨t₂, h2⟩ := ok2
+  have hg2 := addPat_getNode canAdd t t₂ p₂ k₂ v₂ b₂ h2
+  have ok21 : ∃ t₂₁, addPat canAdd t₂ p₁ k₁ v₁ b₁ = .ok t₂₁ := by
+    rw [addPat_ok_iff]
+    have := (addPat_ok_iff canAdd t p₁ k₁ v₁ b₁).mp ⟨t₁, h1⟩
+    rw [hg2 p₁]
+    simpa [hne] using this
+  obtain ⟨t₂₁, h21⟩ := ok21
+  have hg21 := addPat_getNode canAdd t₂ t₂₁ p₁ k₁ v₁ b₁ h21
+  refine ⟨t₂, t₂₁, h2, h21, ?_⟩
+  intro q
+  rw [hg21 q, hg12 q]
+  by_cases hq1 : q = p₁
+  · subst hq1
+    simp only [if_true, hne, if_false]
+    rw [hg2 q, hg1 q]
+    simp [hne]
+  · by_cases hq2 : q = p₂
+    · subst hq2
+      simp only [hq1, if_false, if_true]
+      rw [hg2 q, hg1 q]
+      simp [hq1]
+    · simp only [hq1, hq2, if_false]
+      rw [hg2 q, hg1 q]
+      simp [hq1, hq2]
+
+/-- **Wildcards never match an empty segment, a free wildcard matches the non-empty remainder**: every value
+captured from a request path is non-empty. -/
+theorem c02_captures_nonempty (pat : List PTok) (toks : List Tok) (hseg : ∀ t ∈ toks, ∀ s, t = .seg s → s ≠ "")
+    (caps : List String) (h : matchCaps pat toks = some caps) : ∀ v ∈ caps, v ≠ "" := by
+  induction pat generalizing toks caps with
+  | nil =>
+    cases toks with
+    | nil => simp only [matchCaps, Option.some.injEq] at h; subst h; intro v hv; cases hv
+    | cons t ts => simp [matchCaps] at h
+  | cons p ps ih =>
+    cases toks with
+    | nil => cases p <;> simp [matchCaps] at h
+    | cons tok rest =>
+      have hrest : ∀ t ∈ rest, ∀ s, t = .seg s → s ≠ "" := fun t ht => hseg t (by simp [ht])
+      cases p with
+      | lit s =>
+        simp only [matchCaps] at h
+        by_cases hs : s = tokStr tok
+        · simp only [hs, if_true] at h; exact ih rest hrest caps h
+        · simp [hs] at h
+      | wild =>
+        cases tok with
+        | sep => simp [matchCaps] at h
+        | seg sg =>
+          simp only [matchCaps, Option.map_eq_some_iff] at h
+          obtain ⟨c', hc', rfl⟩ := h
+          intro v hv
+          rcases List.mem_cons.mp hv with rfl | hv
+          · exact hseg (.seg v) (by simp) v rfl
+          · exact ih rest hrest c' hc' v hv
+      | catchAll =>
+        simp only [matchCaps] at h
+        by_cases hps : ps = []
+        · simp only [hps, if_true, Option.some.injEq] at h
+          subst h
+          intro v hv
+          simp only [List.mem_singleton] at hv
+          subst hv
+          exact render_ne_empty tok rest (fun s hs => hseg tok (by simp) s hs)
+        · simp [hps] at h
+
+/-- the tokens of a request path satisfy the hypothesis of `c02_captures_nonempty` -/
+theorem c02_request_tokens (p : String) : ∀ t ∈ tokenize p, ∀ s, t = .seg s → s ≠ "" :=
+  tokenize_seg_nonempty p
+
+example : matchCaps [.lit "/", .wild] (tokenize "/") = none := by decide
+example : matchCaps [.lit "/", .catchAll] (tokenize "/") = none := by decide
+example : matchCaps [.lit "/", .catchAll] (tokenize "/a/b") = some ["a/b"] := by decide
+
+/-- **Backslash-escaped `:`, `*` and `\` start a literal segment**, everything else starting with `:` / `*` is a
+single / free wildcard. -/
+theorem c02_escaped_is_literal (c : Char) (r : List Char) (hc : c = '*' ∨ c = ':' ∨ c = '\\') :
+    classifySeg (String.ofList ('\\' :: c :: r)) = (.lit (String.ofList (c :: r)), none) := by
+  unfold classifySeg
+  simp only [String.toList_ofList]
+  rcases hc with rfl | rfl | rfl <;> simp
+
+theorem c02_wildcard_segments (r : List Char) :
+    classifySeg (String.ofList (':' :: r)) = (.wild, some (String.ofList r)) ∧
+    classifySeg (String.ofList ('*' :: r)) = (.catchAll, some (String.ofList r)) := by
+  unfold classifySeg
+  simp
 
 end Heimdall.Props.C02
